@@ -49,6 +49,14 @@ class AppendOnly(Monitor):
                     run.viol("C18", "completed_record_changed", "record %d (%s): status %r -> %r on %s%r"
                              % (i, r0["id"], r0.get("status"), r1.get("status"), ev["op"], tuple(ev["args"][:3])),
                              subject=r0["id"])
+            if r0.get("status") in COMPLETED and r0.get("next") and r0.get("status") == r1.get("status") and r0 != r1:
+                # decided and finished: every other field (retry bookkeeping, item table, flags) stays as it was too
+                keys = sorted(k for k in set(r0) | set(r1) if r0.get(k) != r1.get(k))
+                if [k for k in keys if k not in ("next", "status", "ctxs", "prev", "term")]:
+                    self.stats["fields_differ"] = self.stats.get("fields_differ", 0) + 1
+                    run.viol("C18", "finished_record_changed", "record %d (%s, %s): field(s) %s changed on %s%r: %r -> %r"
+                             % (i, r0["id"], r0.get("status"), keys, ev["op"], tuple(ev["args"][:3]),
+                                {k: r0.get(k) for k in keys}, {k: r1.get(k) for k in keys}), subject=r0["id"])
             co0, co1 = r0["ctxs"].get("out"), r1["ctxs"].get("out")
             if co0 and r0.get("status") in COMPLETED and r1.get("status") in COMPLETED and co0 != co1:
                 run.viol("C18", "decided_record_changed", "record %d (%s): published context refs %r -> %r"
